@@ -139,8 +139,8 @@ def patch_tokens(isa_, patch, mid, func, bk, suffix=None):
 
     for pt in patch:
         pt = T(pt)
-        if len(pt) == 2 and pt[0] in ("jmp", "jcc", "call", "lea", "q", "lab"):
-            pt = (pt[0], tl(pt[1]))
+        if len(pt) >= 2 and pt[0] in ("jmp", "jcc", "call", "lea", "q", "lab", "leaa", "callplt", "qa", "adrp", "addlo12"):
+            pt = (pt[0], tl(pt[1])) + tuple(pt[2:])
         if pt[0] == "lab":
             toks.append({"t": "lab", "n": pt[1], "own": ("patch", mid), "end": False, "patch": mid})
         elif pt[0] == "cfi":
@@ -167,6 +167,8 @@ def apply_model(spec, mods):
     isa_ = isamod.TARGETS[spec["target"]][0]
     secs = tokens_of(spec)
     expect = None
+    if any(m["op"] == "delfunc" for m in mods):
+        mods = expand_delfunc(spec, mods)
     binfo = {b["n"]: (s["name"], b) for s, b in all_blocks(spec)}
     order = {b["n"]: i for i, (s, b) in enumerate(all_blocks(spec))}
 
@@ -286,6 +288,19 @@ def _emptied(toks, bname):
     return inside
 
 
+def expand_delfunc(spec, mods):
+    """RewritingContext.delete_function(f) = every block of f deleted with retarget_to_proxy"""
+    out = []
+    for m in mods:
+        if m["op"] == "delfunc":
+            for s_, b_ in all_blocks(spec):
+                if b_["k"] == "c" and b_.get("f") == m["f"]:
+                    out.append({"op": "del", "b": b_["n"], "k": 0, "n": len(b_["i"]), "proxy": True})
+        else:
+            out.append(m)
+    return out
+
+
 def expanded_for_refusal(spec, mods):
     for mid, m in enumerate(mods):
         if m["op"] == "scope":
@@ -365,7 +380,10 @@ def flatten(spec, secs, proxied):
                     if not attrs and spec.get("pie") and spec["target"].endswith("-elf") and spec["target"][:3] in ("x64", "ia3") \
                             and t["ins"][0] in ("jmp", "jcc", "call") and t["uid"][0] == "patch" and sx[2] in ext:
                         attrs = ("PLT",)  # what an assembler infers for a branch to an external symbol under PIE
-                    L.symexprs[(sname, pos + sx[0])] = (sx[2], sx[3] if len(sx) > 3 else 0, sx[1], attrs)
+                    size = sx[1]
+                    if t["uid"][0] == "patch" and spec["target"].startswith(("arm64", "mips")):
+                        size = None  # what the assembler records for a fixed-width fixup is C12's business
+                    L.symexprs[(sname, pos + sx[0])] = (sx[2], sx[3] if len(sx) > 3 else 0, size, attrs)
                 for o, a in t.get("ann", {}).items():
                     L.ann[(sname, pos + o)] = a
                 data += b
@@ -643,6 +661,10 @@ def register(w, ctx, mods, log=None, faults=None):
     """Registers the modifications on a RewritingContext, in list order."""
     isa_ = w.isa
     for mid, m in enumerate(mods):
+        if m["op"] == "delfunc":
+            fn = next(f_ for f_ in w.funcs if f_.get_name() == fsym_name(m["f"]))
+            ctx.delete_function(fn)
+            continue
         if m["op"] == "scope":
             from gtirb_rewriting import AllBlocksScope, BlockPosition, Constraints, Patch
 
